@@ -96,7 +96,16 @@ class CallMixin:
     def list_reverse(self, lst, st):
         et, kl, ke, n, arr = self.list_parts(lst, st)
         k = z3.Int(fresh_name('k'))
-        na = z3.Lambda([k], z3.Select(arr, n - 1 - k))
+        j = z3.Int(fresh_name('j'))
+        # the reversed content as a fresh array related to the old one in both directions (triggers on either side)
+        na = z3.Const(fresh_name('rev'), arr.sort())
+        b1 = z3.Implies(z3.And(0 <= k, k < n), z3.Select(na, k) == z3.Select(arr, n - 1 - k))
+        b2 = z3.Implies(z3.And(0 <= j, j < n), z3.Select(na, n - 1 - j) == z3.Select(arr, j))
+        for bv, body, pat in ((k, b1, z3.Select(na, k)), (j, b2, z3.Select(arr, j))):
+            try:
+                st.assume(z3.ForAll([bv], body, patterns=[pat]))
+            except z3.Z3Exception:
+                st.assume(z3.ForAll([bv], body))
         st.seth(ke, z3.Store(st.h(ke), lst.z, na))
 
     def list_assign_seq(self, lst, s, st):
